@@ -207,6 +207,7 @@ type Runner struct {
 	OnKilled      func(r *Runner)       // called between the death of the process and the restart of a kill op (C13)
 	staleBatch    *kv.Batch             // a committed batch whose handle the "caller" kept
 	prefixDstUsed bool
+	spelling      int                   // how the directory is spelled in every Open of this history (Opt.Spelling of the first configuration)
 	OnMergeResult func(err error) *Fail // judge the return value of Merge (C06, C17)
 	LastMergeErr  error
 	kept          []*keptBackup
@@ -232,6 +233,10 @@ func NewRunner(property string, opt Opt, io *IOLog) (*Runner, *Fail) {
 	r.Dir = filepath.Join(r.Base, opt.DirName())
 	r.openJournal(property, opt)
 	opt.PrepareDir(r.Dir)
+	r.spelling = opt.Spelling
+	if opt.Spelling > 0 {
+		r.Stats.Label(fmt.Sprintf("directory-named-through-%s", []string{"", "a-path-that-is-not-clean", "a-symbolic-link"}[opt.Spelling]))
+	}
 	if opt.OddDir {
 		r.Stats.Label("directory-name-with-glob-metacharacters")
 	}
@@ -251,6 +256,7 @@ func (r *Runner) open(opt Opt) (fail *Fail) {
 			fail = failf("open-panic", "Open panicked: %v\n%s", p, trimStack(debug.Stack()))
 		}
 	}()
+	opt.Spelling = r.spelling // one spelling of the directory per history
 	db, err := kv.Open(opt.KV(r.Dir))
 	if err != nil {
 		return failf("open-error", "Open(%s) failed: %v", opt, err)
